@@ -67,3 +67,65 @@ Theorem c04_preload_hint : forall c ops m, reach c ops m -> forall si pl s,
   pl_hint pl = match c_variant (norm_cfg c) with LL => Some (st_nextPart s) | _ => None end.
 Proof. exact playlist_hint. Qed.
 Print Assumptions c04_preload_hint.
+
+(* ---------------------------------------------------------------------------------------------
+   Last sentence of C04: "All streams of one muxer (video and audio renditions) expose the same
+   media sequence numbers and durations at the same time."
+   Model: Model/MuxAtomic.v (lock skeletons, interleaving semantics of one writer goroutine and any
+   number of playlist handlers, the decidable check [atomic_rotation]); proofs: Proofs/MuxAtomic.v;
+   the skeleton of muxer.go / muxer_stream.go is REGENERATED from the source on every run
+   (tools/critsec -> Generated/MuxCritSec.v) and checked in Proofs/MuxAtomicGen.v.
+   A stream is abstracted to its rotation history (kind, nextDTS); the number of published
+   segments and every segment duration are functions of it ([seg_count], [seg_instants]).
+   [greach (ginit ss0 (tw :: trs)) g]: g is reachable by ANY interleaving of the writer's events tw
+   (ANY sequence of createFirstSegment / rotateParts / rotateSegments calls with any arguments, the
+   last one possibly unfinished) with the events of the handlers trs; [reads g t]: handler t is about
+   to read playlist state in g; [g_failed]: some rotation returned an error before (then the muxer
+   is broken: a rendition may miss the segment the leading stream has - outside the claim). *)
+From GoHls Require Import Model.MuxAtomic Proofs.MuxAtomic Proofs.MuxAtomicGen Generated.MuxCritSec.
+
+(* for EVERY skeleton accepted by the check, every number of streams, every history, every schedule *)
+Theorem c04_atomic_rotation_sound : forall sk, atomic_rotation sk = true ->
+  forall n ld ss0 tw trs g, (ld < n)%nat -> List.length ss0 = n -> alleq ss0 ->
+  wtrace sk n ld false tw -> Forall (rtrace sk n ld) trs ->
+  greach (ginit ss0 (tw :: trs)) g ->
+  forall t, reads g t -> g_failed g = true \/ alleq (g_ss g).
+Proof. exact atomic_rotation_sound. Qed.
+Print Assumptions c04_atomic_rotation_sound.
+
+(* the hypotheses are satisfiable: three streams, a complete rotation, a handler reading after it *)
+Theorem c04_atomic_rotation_nonvacuous :
+  atomic_rotation ex_ok = true /\
+  exists tw trs g t, wtrace ex_ok 3 0 false tw /\ Forall (rtrace ex_ok 3 0) trs /\
+    greach (ginit [[]; []; []] (tw :: trs)) g /\ reads g t /\ g_failed g = false /\
+    g_ss g = [[ex_r]; [ex_r]; [ex_r]].
+Proof. exact atomic_rotation_sound_nonvacuous. Qed.
+Print Assumptions c04_atomic_rotation_nonvacuous.
+
+(* REFUTED for "one critical section per stream" (the shape of seeded/C04-m2): the check rejects it
+   and there is a schedule in which a handler reads while the streams' segment counts differ *)
+Theorem c04_split_rotation_refuted :
+  atomic_rotation ex_split = false /\
+  exists n ld ss0 tw trs g t,
+    (ld < n)%nat /\ List.length ss0 = n /\ alleq ss0 /\
+    wtrace ex_split n ld false tw /\ Forall (rtrace ex_split n ld) trs /\
+    greach (ginit ss0 (tw :: trs)) g /\ reads g t /\ g_failed g = false /\
+    exists hi hj, nth_error (g_ss g) 0 = Some hi /\ nth_error (g_ss g) 1 = Some hj /\
+                  seg_count hi <> seg_count hj.
+Proof. exact split_rotation_torn. Qed.
+Print Assumptions c04_split_rotation_refuted.
+
+(* the source as it is now: closed by computation over the regenerated skeleton *)
+Theorem c04_generated_skeleton_atomic : atomic_rotation MuxCritSec.generated = true.
+Proof. exact generated_atomic. Qed.
+Print Assumptions c04_generated_skeleton_atomic.
+
+Theorem c04_streams_agree_at_the_same_time :
+  forall n ld ss0 tw trs g, (ld < n)%nat -> List.length ss0 = n -> alleq ss0 ->
+  wtrace MuxCritSec.generated n ld false tw -> Forall (rtrace MuxCritSec.generated n ld) trs ->
+  greach (ginit ss0 (tw :: trs)) g ->
+  forall t, reads g t -> g_failed g = false ->
+  forall i j hi hj, nth_error (g_ss g) i = Some hi -> nth_error (g_ss g) j = Some hj ->
+    seg_count hi = seg_count hj /\ seg_instants hi = seg_instants hj /\ part_instants hi = part_instants hj.
+Proof. exact generated_same_view. Qed.
+Print Assumptions c04_streams_agree_at_the_same_time.
